@@ -24,7 +24,7 @@ EXPLANATION = (
     "built from are checked by the C04/C02 rules, which are run here as well.")
 ASSUMPTIONS = [
     "equality with <I|H-E0|J> over explicitly built states is not decided",
-    "skeletons are evaluated for orders 0..3 (R03b: adc orders 0..6) and the listed blocks only (bounded)",
+    "skeletons are evaluated for orders 0..3 (thorough tier: 0..4; R03b: adc orders 0..6) and the listed blocks only (bounded)",
     "wicks, intermediate_state, precursor, norm_factor, energy, the operators and amplitude_vector are uninterpreted here",
 ]
 
@@ -93,9 +93,9 @@ def r03a_blocks(ctx):
     for meth, state in (("isr_matrix_block", "intermediate_state"), ("precursor_matrix_block", "precursor")):
         fn = ctx.model.fn(f"{SM}.{meth}")
         n = 0
-        for order in (0, 1, 2, 3):
+        for order in dx.orders(ctx, (0, 1, 2, 3), (4,)):
             for block, indices in ((("ph", "ph"), ("ia", "jb")), (("ph", "pphh"), ("ia", "jkbc")), (("pphh", "ph"), ("ijab", "kc"))):
-                if order == 3 and block != ("ph", "ph"):
+                if order >= 3 and block != ("ph", "ph"):
                     continue
                 scen = dx.Scenario()
                 sx = dx.make_sx(ctx, meth, scen, max_paths=4096)
